@@ -26,7 +26,7 @@ TRUSTED = ['modelled, not verified: the dict-of-lists model coq/model/M_table.v 
            'dict key order is not modelled: observations are compared with columns sorted by name; generated ops never depend on key order '
            '(relabel maps are injective on every table: permutations of a name set or chains ending in a history-fresh name; two-argument do-functions only with explicit keys)',
            'Dict.copy is modelled as the identity on contents (it re-inserts every column through __setitem__)']
-ASSUMPTIONS = ['cells are None, ints, half-integer floats, NaN objects, ASCII strings, datetimes', 'column names are ASCII identifiers other than "key"',
+ASSUMPTIONS = ['cells are None, ints, half-integer floats, +-inf, NaN objects, ASCII strings, datetimes (year 1 .. 9999, microseconds); no bool cells, no nested containers', 'column names are ASCII identifiers other than "key"',
                'row/column callables come from the named set coalesce, is_none, identity, eq (model: M_table.rowfn, colfn)']
 EXHAUSTIVE = {'quick': False, 'thorough': False}
 LEVEL_TEXT = ('machine-checked Coq theorems C01_* for all histories and tables (invariant + refinement to a list-of-records spec by induction over the '
@@ -34,7 +34,7 @@ LEVEL_TEXT = ('machine-checked Coq theorems C01_* for all histories and tables (
 LEVEL_NOTE = 'the model is tied to the source by the differential run only (no translator: the code is dict/list manipulation, not arithmetic)'
 TECHNIQUE = 'Coq refinement proof (data refinement dict-of-lists -> list of records, fold_left induction) + differential correspondence in vm_compute + list-of-records oracle'
 
-NAMES = ['a', 'b', 'c', 'd']
+NAMES = ['a', 'b', 'c', 'd', 'id', '_x', 'find_a']
 
 # ------------------------------------------------------------------ cells
 def cell_py(c, nans):
@@ -42,6 +42,7 @@ def cell_py(c, nans):
         return c
     if 'f' in c: return c['f'] / 2.0
     if 'nan' in c: return nans.setdefault(c['nan'], float('nan'))
+    if 'inf' in c: return float('inf') * c['inf']
     if 's' in c: return c['s']
     if 'd' in c: return us2dt(c['d'])
     raise ValueError(c)
@@ -52,7 +53,8 @@ def cell_obs(x, nanid):
     if isinstance(x, int): return x
     if isinstance(x, float):
         if x != x: return ['nan', nanid.get(id(x), -1)]
-        if math.isinf(x) or (2 * x) != int(2 * x): return ['f?', repr(x)]
+        if math.isinf(x): return ['inf', 1 if x > 0 else -1]
+        if (2 * x) != int(2 * x): return ['f?', repr(x)]
         return ['f', int(2 * x)]
     if isinstance(x, str): return ['s', x]
     if isinstance(x, datetime.datetime): return ['d', dt2us(x)]
@@ -63,6 +65,7 @@ def cell_coq(c):
     if isinstance(c, int): return '(CNum false (%d))' % (2 * c)
     if 'f' in c: return '(CNum true (%d))' % c['f']
     if 'nan' in c: return '(CNaN %d%%N)' % c['nan']
+    if 'inf' in c: return '(CInf %s)' % ('true' if c['inf'] < 0 else 'false')
     if 's' in c: return '(CStr %s)' % qs(c['s'])
     if 'd' in c: return '(CDate (%d))' % c['d']
     raise ValueError(c)
@@ -112,7 +115,7 @@ def op_coq(o):
     if k == 'concat': return 'OConcat %s %s' % (nat(o['dst']), clist(nat(r) for r in o['srcs']))
     if k == 'add':
         a = o['a']
-        s = 'AddNone' if a == 'none' else 'AddZero' if a in ('zero', 'zerof') else '(AddReg %s)' % nat(a['reg']) if 'reg' in a else '(AddRec %s)' % rec_coq(a['rec'])
+        s = 'AddNone' if a == 'none' else 'AddZero' if a in ('zero', 'zerof') else '(AddReg %s)' % nat(a['reg']) if 'reg' in a else '(AddRecs %s)' % clist(rec_coq(x) for x in a['recs']) if 'recs' in a else '(AddRec %s)' % rec_coq(a['rec'])
         return 'OAdd %s %s %s' % (nat(o['dst']), nat(o['r']), s)
     if k == 'copy': return 'OCopy %s %s' % (nat(o['dst']), nat(o['r']))
     raise ValueError(k)
@@ -278,6 +281,10 @@ def ref_step(o, get, conv):
         if 'reg' in a:
             t2 = get(a['reg'])
             return 'new', (None if t2 is None else ref_concat([t, t2]))
+        if 'recs' in a:
+            recs = [dict((n, conv(x)) for n, x in rc) for rc in a['recs']]
+            cols = list(dict.fromkeys(n for rc in recs for n in rc))
+            return 'new', ref_concat([t, Ref(cols, [{n: rc.get(n) for n in cols} for rc in recs] if cols else [])])
         rec = dict((n, conv(x)) for n, x in a['rec'])
         return 'new', ref_concat([t, Ref(list(rec), [rec] if rec else [])])
     if k == 'copy': return 'new', t.copy()
@@ -288,8 +295,9 @@ NOCLAIM = _NoClaim()
 
 # ------------------------------------------------------------------ implementation side
 def impl_setup():
-    global dictable
+    global dictable, np
     from pyg_base import dictable
+    import numpy as np
 
 def snapshot(d):
     return {k: list(dict.__getitem__(d, k)) for k in dict.keys(d)}
@@ -370,7 +378,10 @@ def impl(case):
             if k == 'new_records': result = dictable([dict((n, conv(x)) for n, x in r) for r in o['recs']])
             elif k == 'new_cols':
                 kv = dict((n, conv(v['S']) if 'S' in v else [conv(x) for x in v['L']]) for n, v in o['kvs'])
-                result = dictable(kv) if o.get('form') == 'dict' else dictable(**kv)
+                if o.get('form') == 'mixed':          # dictable(data_dict, **kw): keyword columns first, then the data columns
+                    ks_ = list(kv); sp_ = o.get('split', 0)
+                    result = dictable({k_: kv[k_] for k_ in ks_[sp_:]}, **{k_: kv[k_] for k_ in ks_[:sp_]})
+                else: result = dictable(kv) if o.get('form') == 'dict' else dictable(**kv)
             elif k == 'new_rows':
                 rows = [[conv(x) for x in r] for r in o['rows']]
                 result = dictable([list(o['names'])] + rows) if o['hdr'] else dictable(rows, list(o['names']))
@@ -379,9 +390,13 @@ def impl(case):
                 if o.get('form') == 'update': regs[o['r']].update({o['key']: val})
                 elif o.get('form') == 'attr' and not o['key'].startswith('_'): setattr(regs[o['r']], o['key'], val)
                 else: regs[o['r']][o['key']] = val
-            elif k == 'del': del regs[o['r']][o['key']]
+            elif k == 'del':
+                if o.get('form') == 'attr' and not o['key'].startswith('_'): delattr(regs[o['r']], o['key'])
+                else: del regs[o['r']][o['key']]
             elif k == 'getrow': out = regs[o['r']][o['i']]
-            elif k == 'getcol': out = regs[o['r']][o['key']]
+            elif k == 'getcol':
+                d_ = regs[o['r']]      # d.key is the same column when it exists (a missing attribute is an AttributeError / find_ accessor: not used then)
+                out = getattr(d_, o['key']) if o.get('form') == 'attr' and o['key'] in dict.keys(d_) and not o['key'].startswith('_') else d_[o['key']]
             elif k == 'cell':
                 out = []
                 for f in (lambda d: d[o['i']][o['key']], lambda d: d[o['key']][o['i']]):
@@ -392,8 +407,8 @@ def impl(case):
             elif k == 'iter': out = list(regs[o['r']])
             elif k == 'slice': result = regs[o['r']][slice(o['a'], o['b'], o.get('s'))]
             elif k == 'range': result = regs[o['r']][range(o['a'], o['b'], o['s'])]
-            elif k == 'mask': result = regs[o['r']][list(o['m'])]
-            elif k == 'ints': result = regs[o['r']][list(o['idx'])]
+            elif k == 'mask': result = regs[o['r']][np.array(o['m']) if o.get('form') == 'np' and o['m'] else list(o['m'])]
+            elif k == 'ints': result = regs[o['r']][np.array(o['idx']) if o.get('form') == 'np' and o['idx'] else list(o['idx'])]
             elif k == 'proj': result = regs[o['r']][list(o['names'])]
             elif k == 'call':
                 a = o['arg']
@@ -402,16 +417,19 @@ def impl(case):
             elif k == 'relabel':
                 sp = o['sp']
                 meth = regs[o['r']].rename if o.get('form') == 'rename' else regs[o['r']].relabel
-                result = meth(sp[1]) if sp[0] in ('prefix', 'suffix') else meth(**dict(map(tuple, sp[1])))
+                if sp[0] in ('prefix', 'suffix'):
+                    result = meth((lambda k, p=sp[1]: p + k) if sp[0] == 'prefix' else (lambda k, p=sp[1]: k + p)) if o.get('argform') == 'fn' else meth(sp[1])
+                else:
+                    result = meth(dict(map(tuple, sp[1]))) if o.get('argform') == 'dict' else meth(**dict(map(tuple, sp[1])))
             elif k == 'do':
                 f = mk_colfn(o['f'])
-                result = regs[o['r']].do(f) if o['ks'] is None else regs[o['r']].do(f, []) if not o['ks'] else regs[o['r']].do(f, *o['ks'])
-            elif k == 'concat': result = dictable.concat(*[regs[r] for r in o['srcs']])
+                result = regs[o['r']].do(f) if o['ks'] is None else regs[o['r']].do(f, []) if not o['ks'] else regs[o['r']].do(f, list(o['ks'])) if o.get('form') == 'list' else regs[o['r']].do(f, *o['ks'])
+            elif k == 'concat': result = dictable.concat([regs[r] for r in o['srcs']]) if o.get('form') == 'list' else dictable.concat(*[regs[r] for r in o['srcs']])
             elif k == 'add':
                 a = o['a']
-                other = None if a == 'none' else 0 if a == 'zero' else 0.0 if a == 'zerof' else regs[a['reg']] if 'reg' in a else dict((n, conv(x)) for n, x in a['rec'])
+                other = None if a == 'none' else 0 if a == 'zero' else 0.0 if a == 'zerof' else regs[a['reg']] if 'reg' in a else [dict((n, conv(x)) for n, x in rc) for rc in a['recs']] if 'recs' in a else dict((n, conv(x)) for n, x in a['rec'])
                 result = (other + regs[o['r']]) if o.get('radd') and a in ('zero', 'zerof') else (regs[o['r']] + other)
-            elif k == 'copy': result = regs[o['r']].copy()
+            elif k == 'copy': result = dictable(regs[o['r']]) if o.get('form') == 'ctor' else regs[o['r']].copy()
             else: raise RuntimeError('unknown op ' + k)
         except Exception as e:
             errn = err_name(e); out = ['ERR', errn]
@@ -492,7 +510,9 @@ def impl(case):
     return {'status': status, 'obs': obs, 'viol': viol}
 
 # ------------------------------------------------------------------ generation
-CELLS = [None, None, 0, 1, 2, -3, {'f': 2}, {'f': 5}, {'nan': 0}, {'nan': 1}, {'s': 'x'}, {'s': 'y'}, {'s': ''}, {'d': 63113904000000000 + 86400000000}]
+CELLS = [None, None, 0, 1, 2, -3, {'f': 2}, {'f': 5}, {'nan': 0}, {'nan': 1}, {'s': 'x'}, {'s': 'y'}, {'s': ''}, {'d': 63113904000000000 + 86400000000},
+         10 ** 12, -7, {'f': -5}, {'f': 0}, {'inf': 1}, {'inf': -1}, {'s': 'a b'}, {'s': 'None'}, {'s': '0'},
+         {'d': 86400000000}, {'d': 315537983999999999}, {'d': 64093000089123456}]        # 0001-01-01, 9999-12-31 23:59:59.999999, a sub-second time in 2031
 
 def rcell(rng): return rng.choice(CELLS)
 def rname(rng, t=None, p_exist=0.7):
@@ -651,6 +671,47 @@ def gen_probe(rng, t, r, dst):
     if k == 'call' and cols: return {'op': 'call', 'dst': dst, 'r': r, 'key': cols[0], 'arg': {'f': ['ident', cols[0]]}}
     return {'op': 'copy', 'dst': dst, 'r': r}
 
+def add_forms(rng, o):
+    """alternative SPELLINGS of the same operation (same model op): chosen at random so every spelling meets every kind of table"""
+    k = o['op']; q = rng.random()
+    if k == 'new_cols':
+        o['form'] = rng.choice(['kw', 'dict', 'mixed'])
+        if o['form'] == 'mixed': o['split'] = rng.randrange(0, len(o['kvs']) + 1)
+    elif k in ('del', 'getcol') and q < 0.3: o['form'] = 'attr'
+    elif k in ('mask', 'ints') and q < 0.3: o['form'] = 'np'
+    elif k in ('concat', 'do') and q < 0.3: o['form'] = 'list'
+    elif k == 'copy' and q < 0.4: o['form'] = 'ctor'
+    elif k == 'relabel' and q < 0.4: o['argform'] = 'fn' if o['sp'][0] in ('prefix', 'suffix') else 'dict'
+    elif k == 'add' and isinstance(o['a'], dict) and 'rec' in o['a'] and q < 0.4:
+        recs = [o['a']['rec']] + [[[nm, rcell(rng)] for nm in NAMES if rng.random() < 0.3] for _ in range(rng.choice([0, 1, 2]))]
+        o['a'] = {'recs': recs if rng.random() < 0.9 else []}
+    return o
+
+def gen_big(rng):
+    """tables far beyond the 0-5 x 0-4 scope: 101-180 rows, or 12 columns; a few row-selection / concat / assignment ops on them"""
+    if rng.random() < 0.75:
+        n = rng.randrange(101, 181); names = rng.sample(NAMES, rng.choice([1, 2, 3]))
+        kvs = [[nm, {'L': [rng.choice([i, i, -i, None, {'f': 2 * i + 1}, {'s': 'r%d' % i}]) for i in range(n)]}] for nm in names]
+    else:
+        n = rng.choice([1, 2, 3]); names = ['c%d' % j for j in range(12)]
+        kvs = [[nm, {'L': [rcell(rng) for _ in range(n)]}] for nm in names]
+    ops = [{'op': 'new_cols', 'dst': 0, 'kvs': kvs, 'form': rng.choice(['kw', 'dict'])}]
+    for _ in range(rng.choice([2, 3, 4])):
+        k = rng.choice(['slice', 'mask', 'ints', 'range', 'add', 'set', 'cell', 'getrow', 'proj', 'setlist', 'concat3'])
+        key = rng.choice(names)
+        if k == 'slice': ops.append({'op': 'slice', 'dst': 1, 'r': 0, 'a': rng.choice([None, rng.randrange(-n, n)]), 'b': rng.choice([None, rng.randrange(-n, n + 5)]), 's': rng.choice([None, 7, -1, -13, 100])})
+        elif k == 'mask': ops.append({'op': 'mask', 'dst': 1, 'r': 0, 'm': [rng.random() < 0.5 for _ in range(n)]})
+        elif k == 'ints': ops.append({'op': 'ints', 'dst': 1, 'r': 0, 'idx': [rng.randrange(-n, n) for _ in range(rng.choice([1, 5, 130]))]})
+        elif k == 'range': ops.append({'op': 'range', 'dst': 1, 'r': 0, 'a': n - 1, 'b': rng.choice([-1, 100, n // 2]), 's': rng.choice([-1, -7, -100])})
+        elif k == 'add': ops.append({'op': 'add', 'dst': 2, 'r': 0, 'a': {'reg': rng.choice([0, 1])}, 'radd': False})
+        elif k == 'concat3': ops.append({'op': 'concat', 'dst': 2, 'srcs': [0, 1, 0]})
+        elif k == 'set': ops.append({'op': 'set', 'r': 0, 'key': rng.choice([key, 'z']), 'v': {'S': rcell(rng)}})
+        elif k == 'setlist': ops.append({'op': 'set', 'r': 0, 'key': 'z', 'v': {'L': list(range(rng.choice([n, n, n - 1, n + 1])))}})
+        elif k == 'cell': ops.append({'op': 'cell', 'r': 0, 'i': rng.choice([-1, n - 1, -n, n // 2, n]), 'key': key})
+        elif k == 'getrow': ops.append({'op': 'getrow', 'r': 0, 'i': rng.choice([-1, n - 1, 100, -n])})
+        else: ops.append({'op': 'proj', 'dst': 1, 'r': 0, 'names': rng.sample(names, rng.randrange(1, len(names) + 1))})
+    return {'ops': ops, 'kind': 'big'}
+
 def gen_history(rng, length, malformed):
     """the generator follows the list-of-records reference to produce mostly meaningful ops"""
     global FRESH
@@ -669,6 +730,7 @@ def gen_history(rng, length, malformed):
             pending = [edit, {'op': rng.choice(['iter', 'iter', 'getrow']), 'r': r, 'i': 0}]
         else:
             o = gen_new(rng, rng.randrange(NREGS), False) if i == 0 and rng.random() < 0.8 else gen_op(rng, get, malformed and rng.random() < 0.4)
+        add_forms(rng, o)
         ops.append(o)
         try:
             kind, exp = ref_step(o, get, conv)
@@ -757,16 +819,20 @@ def exhaustive_cases(rng, frac):
 
 def gen_cases(rng, tier):
     cases = []
-    n_hist = 1500 if tier == 'quick' else 30000
+    n_hist = 1300 if tier == 'quick' else 30000
     for i in range(n_hist):
         length = rng.choice([1, 2, 3, 4, 5, 6, 7, 8, 9, 10, 11, 12])
         c = gen_history(rng, length, malformed=(i % 4 == 3)); c['kind'] = 'malformed' if i % 4 == 3 else 'history'
         cases.append(c)
-    cases += exhaustive_cases(rng, 0.12 if tier == 'quick' else 1.0)
+    big = [gen_big(rng) for _ in range(12 if tier == 'quick' else 300)]
+    step_ = max(1, len(cases) // (len(big) + 1))            # spread over the cases files: they are the slow ones inside Coq
+    for j, b in enumerate(big): cases.insert(min(len(cases), (j + 1) * step_ + j), b)
+    cases += exhaustive_cases(rng, 0.08 if tier == 'quick' else 1.0)
     return cases
 
 def nontrivial(case, result):
     if case.get('kind') == 'small': return False
+    if case.get('kind') == 'big': return True
     kinds = set(); rows = False
     for o, ob in zip(case['ops'], result.get('obs') or []):
         try:
@@ -779,7 +845,7 @@ def nontrivial(case, result):
 
 def shape(case):
     k = case.get('kind', 'corpus')
-    return k if k == 'small' else '%s:len%d' % (k, len(case['ops']))
+    return k if k in ('small', 'big') else '%s:len%d' % (k, len(case['ops']))
 
 def shrink(case):
     ops = case['ops']
